@@ -110,3 +110,24 @@ def shrink_list(items, fails, max_rounds=6):
         if not changed:
             break
     return items
+
+
+def fresh_process_fails(violation):
+    """re-run one recorded violation with `run_check.py <id> --replay` in a fresh interpreter; True iff it still fails"""
+    import subprocess
+    import tempfile
+    with tempfile.NamedTemporaryFile("w", suffix=".json", delete=False, dir=os.path.join(VERIF, "replays")
+                                     if os.path.isdir(os.path.join(VERIF, "replays")) else None) as f:
+        json.dump({"violation": violation.to_json()}, f)
+        path = f.name
+    try:
+        r = subprocess.run([sys.executable, os.path.join(VERIF, "tools", "run_check.py"), violation.prop_id, "--replay", path],
+                           stdout=subprocess.PIPE, stderr=subprocess.STDOUT, text=True, timeout=600, env=dict(os.environ))
+        return r.returncode == 1
+    except Exception:
+        return False
+    finally:
+        try:
+            os.unlink(path)
+        except OSError:
+            pass
